@@ -131,6 +131,8 @@ class ValidateRtu:
     returns = "bool"
     pure = True
     raises_only = (PartialResponseException, RequestRejectedException)
+    # the transport state machine (C04, C08, C09) relies on it: an exception of any other kind escapes the callback
+    raises_only_name = "C01_C04_C08_raises_only"
     cover = ("True", "False", "PartialResponseException", "RequestRejectedException")
 
     def requires(data, cmd, offset, value):
@@ -138,6 +140,11 @@ class ValidateRtu:
 
     def ensures_C01_accept_implies_wellformed(data, cmd, offset, value, result):
         return (result is True or result is False) and (not result or wf_rtu(data, cmd, offset, value))
+
+    def ensures_C01_C17_accepted_write_answer_echoes_register_and_value(data, cmd, offset, value, result):
+        # what "write_setting succeeded" means at the wire (C17): the inverter acknowledged this very write
+        return (not result or cmd == 3
+                or (len(data) >= 10 and be16(data[4:6]) == offset and sbe16(data[6:8]) == value))
 
     def ensures_C02_wellformed_implies_accept(data, cmd, offset, value, result):
         return result or not wf_rtu(data, cmd, offset, value)
@@ -185,6 +192,8 @@ class ValidateTcp:
     returns = "bool"
     pure = True
     raises_only = (PartialResponseException, RequestRejectedException)
+    # the transport state machine (C04, C08, C09) relies on it: an exception of any other kind escapes the callback
+    raises_only_name = "C01_C04_C08_raises_only"
     cover = ("True", "False", "PartialResponseException", "RequestRejectedException")
 
     def requires(data, cmd, offset, value):
@@ -192,6 +201,10 @@ class ValidateTcp:
 
     def ensures_C01_accept_implies_wellformed(data, cmd, offset, value, result):
         return (result is True or result is False) and (not result or wf_tcp(data, cmd, offset, value))
+
+    def ensures_C01_C17_accepted_write_answer_echoes_register_and_value(data, cmd, offset, value, result):
+        return (not result or cmd == 3
+                or (len(data) >= 12 and be16(data[8:10]) == offset and sbe16(data[10:12]) == value))
 
     def ensures_C02_wellformed_implies_accept(data, cmd, offset, value, result):
         return result or not wf_tcp(data, cmd, offset, value)
